@@ -12,7 +12,7 @@ RULE = ('as C01 (G-sel + design-variable nodes x both encoders x declared space)
         'valid rows; distinct = graph+encoder')
 TRUSTED = ['the encoding description E is read from GraphProcessor.all_des_vars']
 PARTIAL = ['connection variables are covered by C10/C11 machinery']
-batches = _proc.make_batches('C03', ['complete', 'fast'], 400, 4000, cons_prob=0.25)
+batches = _proc.make_batches('C03', ['complete', 'fast'], 1200, 6000, cons_prob=0.25)
 run_case = _proc.make_run_case(CLAUSES)
 compare = _proc.compare
 shrink_candidates = _proc.shrink_candidates
